@@ -135,19 +135,26 @@ func (g *gateBucket) pendingList() []string {
 	return out
 }
 
-// releaseCall lets the blocked call with index i (in sorted-argument order) proceed with the given outcome.
+// releaseCall lets every call blocked with exactly these arguments proceed with the given outcome. Calls with identical arguments are
+// issued by goroutines racing after one loop message, so their order at the gate is not determined by the schedule; releasing them
+// together keeps the observable deterministic (readers of one tile are interchangeable, a metadata and a TileJSON reader are not).
 func (g *gateBucket) releaseCall(args string, outcome string) bool {
 	g.mu.Lock()
-	for i, c := range g.pending {
+	var hit []*gateCall
+	var rest []*gateCall
+	for _, c := range g.pending {
 		if fmt.Sprintf("%s/%s/%d/%d", strings.TrimSuffix(c.key, ".pmtiles"), c.etag, c.off, c.len) == args {
-			g.pending = append(g.pending[:i], g.pending[i+1:]...)
-			g.mu.Unlock()
-			c.release <- outcome
-			return true
+			hit = append(hit, c)
+		} else {
+			rest = append(rest, c)
 		}
 	}
+	g.pending = rest
 	g.mu.Unlock()
-	return false
+	for _, c := range hit {
+		c.release <- outcome
+	}
+	return len(hit) > 0
 }
 func (g *gateBucket) releaseAll() {
 	g.mu.Lock()
@@ -247,7 +254,10 @@ func (v *srvVersion) defStr() string {
 	if a.H.TileType >= 1 && a.H.TileType <= 5 {
 		req = int(a.H.TileType)
 	}
-	return fmt.Sprintf("%d %d %d %d %d %d %d %d %d %d %s %s", v.id, v.name, v.tag, a.H.MinZoom, a.H.MaxZoom, req, a.H.RootOff, a.H.RootLen, a.H.LeafOff, a.H.DataOff, a.dirsStr(), hx(a.Bytes))
+	_, mb := v.pathAnswer("meta")
+	_, jb := v.pathAnswer("json")
+	return fmt.Sprintf("%d %d %d %d %d %d %d %d %d %d %s %s %d %d %s %s", v.id, v.name, v.tag, a.H.MinZoom, a.H.MaxZoom, req, a.H.RootOff, a.H.RootLen, a.H.LeafOff, a.H.DataOff, a.dirsStr(), hx(a.Bytes),
+		a.H.MetaOff, a.H.MetaLen, hx(mb), hx(jb))
 }
 
 // answerOf: what an uncached, single-version lookup answers (the harness's own reader over its own ground truth)
@@ -423,23 +433,31 @@ func (sr *srvRun) startPath(name int, kind string) {
 		sr.mu.Unlock()
 		atomic.AddInt64(&sr.gate.activity, 1)
 	}()
-	sr.steps = append(sr.steps, fmt.Sprintf("P %d %d %s", r.rid, name, kind))
+	sr.steps = append(sr.steps, fmt.Sprintf("P %d %d %d", r.rid, name, map[string]int{"meta": 1, "json": 2}[kind]))
 	sr.obs = append(sr.obs, sr.observe())
 	sr.step++
 }
 
-// what a server that only ever saw this version answers on the metadata / TileJSON endpoint
+// what a server that only ever saw this version answers on the metadata / TileJSON endpoint: the archive's JSON metadata
+// unchanged, and the TileJSON built from this version's header and metadata
 func (v *srvVersion) pathAnswer(kind string) (int, []byte) {
-	mb := newMemBucket()
-	mb.put(fmt.Sprintf("a%d.pmtiles", v.name), v.arch.Bytes, "only")
-	srv, _ := pmtiles.NewServerWithBucket(mb, "", quietLogger, 64, "http://pub")
-	srv.Start()
-	path := fmt.Sprintf("/a%d/metadata", v.name)
-	if kind == "json" {
-		path = fmt.Sprintf("/a%d.json", v.name)
+	a := v.arch
+	meta := a.Meta
+	if a.H.IntComp == 2 {
+		meta, _ = gunz(meta)
 	}
-	st, _, body := srv.Get(context.Background(), path)
-	return st, body
+	if kind == "meta" {
+		return 200, meta
+	}
+	h, err := pmtiles.DeserializeHeader(a.Bytes[:127])
+	if err != nil {
+		return 500, nil
+	}
+	tj, err := pmtiles.CreateTileJSON(h, meta, fmt.Sprintf("http://pub/a%d", v.name))
+	if err != nil {
+		return 500, nil
+	}
+	return 200, tj
 }
 
 func tagNum(etag string) int {
